@@ -146,14 +146,29 @@ def candidates(sch, draw):
                 def mut2(s, p=p):
                     at_type(s, p)["length"] = 2
                 cands.append(("constant-length-rule", pos, mut2))
-            if el["presence"] == "constant" and el["prim"] == "char" and el["length"] is not None and len(el["const"]) > 1:
+            if el["presence"] == "constant" and el["prim"] == "char" and el.get("value_ref") is None and el["length"] is not None and len(el["const"]) > 1:
                 def mut(s, p=p, n=len(el["const"])):
                     at_type(s, p)["length"] = n - 1
                 cands.append(("constant-length-rule", pos + "-char", mut))
             if el["presence"] == "constant":
                 def mut(s, p=p):
                     at_type(s, p)["const"] = None
+                    at_type(s, p)["value_ref"] = None
                 cands.append(("constant-value-rule", pos + "-novalue", mut))
+            if el["presence"] == "constant" and el.get("value_ref") is not None:
+                # exactly one of text / valueRef
+                def mut(s, p=p):
+                    at_type(s, p)["const"] = "1"
+                cands.append(("constant-value-rule", pos + "-value-and-valueRef", mut))
+
+                def mut(s, p=p):
+                    vr = at_type(s, p)["value_ref"]
+                    at_type(s, p)["value_ref"] = draw(st.sampled_from([vr.split(".")[0] + ".no_such_value", "nope." + vr.split(".")[1]]))
+                cands.append(("unknown-reference", pos + "-type-valueRef", mut))
+
+                def mut(s, p=p):
+                    at_type(s, p)["length"] = 2
+                cands.append(("constant-length-rule", pos + "-valueRef", mut))
         if kind == "enum":
             for vi, v in enumerate(el["values"]):
                 def mut(s, p=p, vi=vi, prim=el["prim"]):
